@@ -27,10 +27,18 @@ func main() {
 	replay := flag.String("replay", "", "replay a file")
 	merge := flag.String("merge", "", "comma separated hash files: print distinct count")
 	minS := flag.Float64("minimize", 15, "minimisation budget (s)")
+	det := flag.Int("det", 0, "determinism self-test: run this many seeds once each and print one line per run")
+	detRev := flag.Bool("detrev", false, "determinism self-test: run the seeds in reverse order")
 	specF := flag.String("spec", "", "development: use this property's engines, report -prop's rules")
 	flag.Parse()
 	sruntime.Disabled = true
 	debug.SetGCPercent(200)
+	if *det > 0 {
+		for _, l := range zz.DetRun(*prop, *seed, *det, *detRev) {
+			fmt.Println(l)
+		}
+		return
+	}
 	if *merge != "" {
 		fmt.Println(zz.MergeHashes(strings.Split(*merge, ",")))
 		return
